@@ -970,6 +970,23 @@ func hostileCRL(rng *rand.Rand, cert, issuer *x509.Certificate, ikey *pki.Key, d
 	case 20:
 		tgt.SignKey = pki.K("ed25519", 0)
 		d = "signed-by-ed25519"
+	case 21, 22:
+		// a delta that carries a freshest-CRL extension itself, naming its own
+		// location or the base's (which names the delta again)
+		if dl == nil {
+			dl = &pki.CRL{IssuerRawName: issuer.RawSubject, SignKey: ikey, NextUpdate: pki.Future, Number: big.NewInt(101), DeltaInd: big.NewInt(100)}
+			b.FreshestRaw = pki.CDPDER([]string{deltaURL})
+		}
+		dl.FreshestRaw = pki.CDPDER([]string{deltaURL})
+		d = "delta-names-itself"
+		if rng.IntN(2) == 0 {
+			dl.FreshestRaw = pki.CDPDER([]string{strings.Replace(deltaURL, "delta0.crl", "base.crl", 1)})
+			d = "delta-names-the-base"
+		}
+		if rng.IntN(3) == 0 {
+			dl.BreakSig = true
+			d += "+broken-signature"
+		}
 	default:
 		tgt.Entries = append(tgt.Entries, entry)
 		d = "valid-with-entry"
